@@ -359,7 +359,7 @@ func dcCase(c *hlib.Ctx, focus bool) {
 		var t *csg
 		var mn, mx model3d.Coord3D
 		var delta float64
-		if !focus && c.Rng.Intn(3) != 0 {
+		if !focus && c.Rng.Intn(2) != 0 {
 			nn := [3]int{1 + c.Rng.Intn(4), 1 + c.Rng.Intn(4), 1 + c.Rng.Intn(6)}
 			delta = []float64{1, 0.5, 2}[c.Rng.Intn(3)]
 			o := [3]float64{dy(c, -3, 3, 2), dy(c, -3, 3, 2), dy(c, -3, 3, 2)}
@@ -375,7 +375,22 @@ func dcCase(c *hlib.Ctx, focus bool) {
 			if focus {
 				span = 1
 			}
-			t = &csg{kind: "and", a: &csg{kind: "box", p: []float64{0, 0, 0, span, span, span}}, b: randCSG(c, span, 2, true, false)}
+			body := randCSG(c, span, 2, true, false)
+			if (!focus && c.Rng.Intn(2) == 0) || (focus && c.Rng.Intn(4) == 0) {
+				// sharp features that are not aligned with the grid (wedges, pyramid tips, oblique creases):
+				// where the unclipped QEF minimiser leaves its cell
+				ob := oblique(c, span, false)
+				switch c.Rng.Intn(3) {
+				case 0:
+					body = ob
+				case 1:
+					body = &csg{kind: "or", a: body, b: ob}
+				default:
+					body = &csg{kind: "sub", a: &csg{kind: "ball", p: []float64{span / 2, span / 2, span / 2, span / 2}}, b: ob}
+				}
+				c.Stat("c02.dc.oblique_features", 1)
+			}
+			t = &csg{kind: "and", a: &csg{kind: "box", p: []float64{0, 0, 0, span, span, span}}, b: body}
 			mn, mx = model3d.XYZ(0, 0, 0), model3d.XYZ(span, span, span)
 			delta = []float64{0.5, 0.25, 0.375}[c.Rng.Intn(3)]
 			c.Stat("c02.dc.csg", 1)
@@ -422,6 +437,16 @@ func dcCase(c *hlib.Ctx, focus bool) {
 		s := &solid3{t, mn, mx}
 		mode := model3d.DualContouringTriangleMode(c.Rng.Intn(3))
 		wantInterior := c.Rng.Intn(2) == 0
+		// entry point: the DualContouring struct built by hand, or one of the two convenience wrappers
+		// DualContour(s, delta, repair, clip) / DualContourInterior(s, delta, repair, clip) with clip = true
+		// (they leave every other option at its zero value: jitter on, default margin, default buffer)
+		entry := "struct"
+		if c.Rng.Intn(5) < 2 {
+			entry = []string{"DualContour", "DualContourInterior"}[c.Rng.Intn(2)]
+			noJitter, gos, buf, margin, mode = false, 0, 0, 0, 0
+			wantInterior = entry == "DualContourInterior"
+		}
+		c.Stat("c02.dc.entry_"+entry, 1)
 		xs, ys, zs, bufRows := model3d.VerifDcLayout(mn, mx, delta, noJitter, buf)
 		if bufRows < len(zs) {
 			c.Stat("c02.dc.buffer_shifts", 1)
@@ -438,14 +463,84 @@ func dcCase(c *hlib.Ctx, focus bool) {
 			wi = 1
 		}
 		// tokens after the option string are replay information (the driver reads only the lattice and labels)
-		op := fmt.Sprintf("c02 %s %d %d %d %s %d nojitter=%v,gos=%d,buf=%d,margin=%v,mode=%d,delta=%v | min %s max %s solid %s", kind,
-			len(xs), len(ys), len(zs), bitStr(bs), wi, noJitter, gos, buf, margin, mode, delta, rat3(mn), rat3(mx), t)
+		op := fmt.Sprintf("c02 %s %d %d %d %s %d entry=%s,nojitter=%v,gos=%d,buf=%d,margin=%v,mode=%d,delta=%v | min %s max %s solid %s", kind,
+			len(xs), len(ys), len(zs), bitStr(bs), wi, entry, noJitter, gos, buf, margin, mode, delta, rat3(mn), rat3(mx), t)
+		mkOp := func() string {
+			return fmt.Sprintf("c02 %s %d %d %d %s %d entry=%s,nojitter=%v,gos=%d,buf=%d,margin=%v,mode=%d,delta=%v | min %s max %s solid %s", kind,
+				len(xs), len(ys), len(zs), bitStr(bs), wi, entry, noJitter, gos, buf, margin, mode, delta, rat3(mn), rat3(mx), t)
+		}
 		announce(op)
-		c.Emit(op, withTimeout(func() string {
+		res := withTimeout(func() string {
 			d := &model3d.DualContouring{S: model3d.SolidSurfaceEstimator{Solid: s}, Delta: delta, NoJitter: noJitter,
 				MaxGos: gos, BufferSize: buf, Repair: repair, Clip: true, CubeMargin: margin, TriangleMode: mode}
 			var m *model3d.Mesh
 			var pts []model3d.Coord3D
+			switch {
+			case entry == "DualContour":
+				m = model3d.DualContour(s, delta, repair, true)
+			case entry == "DualContourInterior":
+				m, pts = model3d.DualContourInterior(s, delta, repair, true)
+			case wantInterior:
+				m, pts = d.MeshInterior()
+			default:
+				m = d.Mesh()
+			}
+			tris := m.TriangleSlice()
+			if entry != "struct" {
+				// The wrappers choose the lattice themselves.  The property does not prescribe the jitter, so if
+				// the mesh does not fit the default (jittered) lattice but fits the lattice without jitter
+				// perfectly, it is judged against that one (a wrapper that switched the jitter off still
+				// bounds the solid it sampled).
+				fits := func(ax [3][]float64) bool {
+					if !repair {
+						q, ic := quadsStr(ax, tris)
+						if ic != "1" || strings.Contains(q, "irregular") || strings.Contains(q, "-triangles") || strings.Contains(q, "not-a-quad") {
+							return false
+						}
+					}
+					// every lattice edge whose ends are labelled differently is crossed exactly once, from the
+					// contained to the excluded end, and no other edge is touched
+					lab := labels3(s, ax[0], ax[1], ax[2])
+					nx, ny, nz := len(ax[0]), len(ax[1]), len(ax[2])
+					cr := crossings(ax, tris)
+					want := 0
+					for z := 0; z < nz; z++ {
+						for y := 0; y < ny; y++ {
+							for x := 0; x < nx; x++ {
+								a := lab[x+nx*(y+ny*z)]
+								for k, q := range [3][3]int{{x + 1, y, z}, {x, y + 1, z}, {x, y, z + 1}} {
+									if q[0] >= nx || q[1] >= ny || q[2] >= nz || lab[q[0]+nx*(q[1]+ny*q[2])] == a {
+										continue
+									}
+									want++
+									v := cr[fmt.Sprintf("%d.%s", k, cell{x, y, z})]
+									if v == nil || v.half != 2 || len(v.flags) != 0 || v.plus == v.minus || v.plus != a {
+										return false
+									}
+								}
+							}
+						}
+					}
+					n := 0
+					for _, v := range cr {
+						if v.half != 0 || len(v.flags) != 0 {
+							n++
+						}
+					}
+					return n == want && (!wantInterior || len(pts) == want)
+				}
+				if !fits(axes) {
+					ax, ay, az, _ := model3d.VerifDcLayout(mn, mx, delta, true, buf)
+					if fits([3][]float64{ax, ay, az}) {
+						noJitter = true
+						xs, ys, zs = ax, ay, az
+						axes = [3][]float64{xs, ys, zs}
+						bs = labels3(s, xs, ys, zs)
+						op = mkOp()
+						c.Stat("c02.dc.wrapper_judged_on_the_unjittered_lattice", 1)
+					}
+				}
+			}
 			nActive := 0
 			// number of lattice edges whose ends differ (for the interior-point count)
 			nx, ny, nz := len(xs), len(ys), len(zs)
@@ -467,7 +562,6 @@ func dcCase(c *hlib.Ctx, focus bool) {
 			}
 			interior := "-"
 			if wantInterior {
-				m, pts = d.MeshInterior()
 				in := 1
 				for _, p := range pts {
 					if !s.Contains(p) {
@@ -477,10 +571,7 @@ func dcCase(c *hlib.Ctx, focus bool) {
 					}
 				}
 				interior = fmt.Sprintf("%d/%d", len(pts)-nActive, in) // 0/1 expected
-			} else {
-				m = d.Mesh()
 			}
-			tris := m.TriangleSlice()
 			if repair {
 				return fmt.Sprintf("cross=%s interior=%s", crossStr(crossings(axes, tris)), interior)
 			}
@@ -502,7 +593,8 @@ func dcCase(c *hlib.Ctx, focus bool) {
 				}
 			}
 			return fmt.Sprintf("quads=%s incell=%s cross=%s interior=%s", q, incell, crossStr(crossings(axes, tris)), interior)
-		}))
+		})
+		c.Emit(op, res)
 	}
 }
 
